@@ -345,7 +345,7 @@ private theorem inv_initStages (k : Kind) (sm : ClientSM) (pre : List Msg) (e : 
     Inv k (initStages sm pre e s).1 := by
   cases e <;> simp [initStages, failInit, succeedInit, Inv, hi] <;> exact hs
 
-theorem inv_step (G : Guards) (k : Kind) (sm : ClientSM) (op : Op) (h : Inv k sm) : Inv k (step G k sm op).1 := by
+theorem C16_inv_step (G : Guards) (k : Kind) (sm : ClientSM) (op : Op) (h : Inv k sm) : Inv k (step G k sm op).1 := by
   have hf := stepRaw_flags G k sm op
   suffices hr : Inv k (stepRaw G k sm op).1 by
     obtain ⟨a, b, c⟩ := hr
@@ -415,7 +415,7 @@ theorem inv_step (G : Guards) (k : Kind) (sm : ClientSM) (op : Op) (h : Inv k sm
   | close =>
     cases k <;> simp [stepRaw, stepClose, Inv]
 
-theorem inv_init (k : Kind) : Inv k {} := by simp [Inv]
+theorem C16_inv_init (k : Kind) : Inv k {} := by simp [Inv]
 
 private theorem final_cons (G : Guards) (k : Kind) (sm : ClientSM) (op : Op) (ops : List Op) :
     final G k sm (op :: ops) = final G k (step G k sm op).1 ops := by
@@ -429,10 +429,10 @@ private theorem trace_cons (G : Guards) (k : Kind) (sm : ClientSM) (op : Op) (op
 /-- Reported state and flag are consistent after every history on every kind of client: `initialized` is reported
     exactly when the flag is set, `connected` is never left behind. -/
 theorem C16_state_consistent (G : Guards) (k : Kind) (ops : List Op) : Inv k (final G k {} ops) := by
-  suffices ∀ sm, Inv k sm → Inv k (final G k sm ops) from this {} (inv_init k)
+  suffices ∀ sm, Inv k sm → Inv k (final G k sm ops) from this {} (C16_inv_init k)
   induction ops with
   | nil => intro sm h; exact h
-  | cons op ops ih => intro sm h; rw [final_cons]; exact ih _ (inv_step G k sm op h)
+  | cons op ops ih => intro sm h; rw [final_cons]; exact ih _ (C16_inv_step G k sm op h)
 
 /-- One step moves the reported state exactly as the specification of "what happened" says. -/
 theorem C16_state_step (G : Guards) (k : Kind) (sm : ClientSM) (op : Op) :
